@@ -3,7 +3,7 @@ CONSTANTS N = 6  Par = {"p", "q"}  NVal = 2  NGrid = 2  MaxDepth = 1  MaxLevel =
           GridSlot = "stack"  PickleSerial = "fresh"  DbSerial = "max"
 CONSTANTS Keeps <- KeepsSmall  Acts <- ActsCopy  Parent0 <- ParentA  Cls0 <- ClsA
           ParOf <- McParOf  GridCls <- McGridCls  MatCls <- McMatCls
-          DbCls <- McDbCls  CopyCls <- McAllCls  CallsOf <- McCallsOf
+          DbCls <- McDbCls  CopyCls <- McAllCls  CallsOf <- McCallsOf  Unset0 <- NoUnset  Link0 <- LinkNone
 ACTION_CONSTRAINT Emit
 INIT Init
 NEXT Next
